@@ -51,6 +51,17 @@ def gen_attr_section(rng, le, arm):
                     s = rng.choice(['', 'Cortex-A8', 'rv64imafdc_zicsr', '2.09'])
                     attrs += uleb(t) + s.encode() + b'\x00'
                     aexp.append((N[t], s, None))
+                elif arm and rng.random() < 0.2:
+                    # Tag_also_compatible_with (65): an NTBS-framed nested (tag, value) pair: a ULEB128 value is followed by the
+                    # terminating NUL, a string value is its own terminator
+                    if rng.random() < 0.5:
+                        t, v = rng.choice(sorted(U)), rng.choice([0, 1, 127, 128, 300])
+                        attrs += uleb(65) + uleb(t) + uleb(v) + b'\x00'
+                        aexp.append(('TAG_ALSO_COMPATIBLE_WITH', (U[t], v), None))
+                    else:
+                        t, sv = rng.choice(sorted(N)), rng.choice(['', 'Cortex-M3', 'x'])
+                        attrs += uleb(65) + uleb(t) + sv.encode() + b'\x00'
+                        aexp.append(('TAG_ALSO_COMPATIBLE_WITH', (N[t], sv), None))
                 elif arm and rng.random() < 0.15:
                     v, s = rng.randrange(0, 300), rng.choice(['', 'vendor'])
                     attrs += uleb(32) + uleb(v) + s.encode() + b'\x00'      # Tag_compatibility: ULEB128 flag + NTBS vendor
@@ -80,7 +91,8 @@ def case_attributes(rng):
         for ss in sec.iter_subsections():
             for sss in ss.iter_subsubsections():
                 got.append((ss['vendor_name'], sss.header.tag, sss.header.value, sss.header.extra,
-                            [(a.tag, a.value, a.extra) for a in sss.iter_attributes()]))
+                            [(a.tag, (a.value.tag, a.value.value) if a.tag == 'TAG_ALSO_COMPATIBLE_WITH' else a.value, a.extra)
+                             for a in sss.iter_attributes()]))
         if got != exp:
             i = next((k for k, (a, b) in enumerate(zip(got, exp)) if a != b), min(len(got), len(exp)))
             return ('sub-subsection %d reads %r, encoded %r (%d read, %d encoded)' % (
